@@ -600,8 +600,10 @@ class HistFamily(Family):
 PROP = Property(
     id="C10",
     title="Statistics and histograms equal their definition regardless of chunking or views",
-    theorems=["C10.stat_bbox_eq", "C10.stat_bbox_shape", "C10.hist_total", "C10.hist_bin", "C10.hist_bin_top",
-              "C10.hist_perbin_partial"],
+    theorems=["C10.stat_bbox_eq", "C10.stat_bbox_shape", "C10.stat_chunked_eq", "C10.stat_chunked_shape",
+              "C10.stat_slice_shortcut_eq", "C10.stat_refines_spec_partial", "C10.stat_shape", "C10.F10c_witness",
+              "C10.reduce_partition_min", "C10.reduce_partition_max", "C10.reduce_partition_sum",
+              "C10.hist_total", "C10.hist_bin", "C10.hist_bin_top", "C10.hist_perbin_partial", "C10.F10_witness"],
     families=[StatFamily(), HistFamily()],
     trusted_base=["numpy reducers (nanmin/nanmax/nansum/nanmean/nanmedian/nanpercentile and the plain ones), "
                   "fast_histogram.histogram1d and IEEE double arithmetic are assumed to agree with exact "
